@@ -187,6 +187,8 @@ class Check:
                 continue
             printed.add((prop, k.get("what")))
             print("KNOWN-FINDING: property=%s %s [key=%s]" % (prop, k.get("what", ""), key))
+            if os.environ.get("VERIF_SHOW_KNOWN"):
+                print("  " + x.msg[:3000].replace("\n", "\n  "))
         for (prop, key), x in new.items():
             path = runner.save_replay(self.id, x.res, x.msg) if x.res is not None else getattr(x, "replay_path", "-")
             if x.res is not None:
